@@ -578,6 +578,133 @@ def v17(rep):
     rep.floor("bucket arrays indexed by a count that is not read from the same table", two, 2)
 
 
+def _v18_node_of(b):
+    """N for a `N->part[E].branch` MemberExpr b, else None"""
+    if b is None or b["k"] != "MemberExpr" or b["n"] != "branch": return None
+    a = strip(b["c"][0])
+    if a is None or a["k"] != "ArraySubscriptExpr": return None
+    p = strip(a["c"][0])
+    if p is None or p["k"] != "MemberExpr" or p["n"] != "part": return None
+    return render(strip(p["c"][0]))
+
+def _v18_leaf_test(cond, N):
+    """'leaf' when cond true implies N is a leaf, 'inner' when cond true implies N is not a leaf, else None (conjunctions looked into)"""
+    c = strip(cond)
+    if c is None: return None
+    if c["k"] == "BinaryOperator" and c["op"] == "&&":
+        for s in c["c"]:
+            r = _v18_leaf_test(s, N)
+            if r: return r
+        return None
+    neg = False
+    while c is not None and c["k"] == "UnaryOperator" and c["op"] == "!":
+        neg, c = not neg, strip(c["c"][0])
+    if c is not None and c["k"] == "MemberExpr" and c["n"] == "isLeaf" and render(strip(c["c"][0])) == N:
+        return "inner" if neg else "leaf"
+    return None
+
+def _v18_guarded(use, N, par):
+    cur = use
+    while cur["id"] in par:
+        p_ = par[cur["id"]]
+        if p_["k"] == "IfStmt":
+            t = _v18_leaf_test(p_["c"][0], N)
+            in_then = any(y is cur for y in walk(p_["c"][1]))
+            in_else = len(p_["c"]) > 2 and p_["c"][2] is not None and any(y is cur for y in walk(p_["c"][2]))
+            if (t == "inner" and in_then) or (t == "leaf" and in_else and "&&" not in render(p_["c"][0])):
+                return True
+        elif p_["k"] == "WhileStmt":
+            if _v18_leaf_test(p_["c"][0], N) == "inner" and any(y is cur for y in walk(p_["c"][1])):
+                return True
+        elif p_["k"] == "BinaryOperator" and p_["op"] == "&&":
+            if _v18_leaf_test(p_["c"][0], N) == "inner" and any(y is cur for y in walk(p_["c"][1])):
+                return True
+        elif p_["k"] == "CompoundStmt":
+            for st in p_["c"]:
+                if st is None: continue
+                if st is cur or any(y is cur for y in walk(st)): break
+                if st["k"] == "IfStmt" and _v18_leaf_test(st["c"][0], N) == "leaf" and "&&" not in render(st["c"][0]) and common.ends_flow(st["c"][1]):
+                    return True
+        cur = p_
+    return False
+
+def v18(rep):
+    """Only an inner node of the B-tree has branches; in a leaf the `branch` members are never written.  Every routine that is
+    handed an arbitrary node tests `isLeaf` before it follows a branch -- except where one path forgot: btreeDelete0 tested it
+    when the key was found in the node and not when it was absent, so deleting a key that is not in the tree followed an
+    uninitialised pointer out of a leaf.  Rule, over btree.c: a read of `P->part[..].branch` where P is a parameter is either
+    under a test that P is not a leaf (enclosing `if`/`while`/`&&`, an earlier `if (P->isLeaf) return`), or it makes P a
+    parameter that *requires an inner node*.  Every call that passes a node for such a parameter passes one known to be inner
+    at the call: under such a test, made inner just before (`s->isLeaf = false`), or the caller's own requiring parameter
+    (fixpoint).  No externally visible function ends up requiring an inner node."""
+    f = common.extract("btree.c", all_trees=True)
+    info, need = {}, {}
+    reads = 0
+    for name, fn in sorted(f.funcs.items()):
+        if "body" not in fn or not fn.get("file", "").endswith("btree.c"):
+            continue
+        par = common.parents(fn["body"])
+        params = [p_["n"] for p_ in fn.get("params", [])]
+        info[name] = (fn, par, params)
+        lhs = set()
+        for x in walk(fn["body"]):
+            if x["k"] == "BinaryOperator" and x["op"] == "=":
+                l = strip(x["c"][0])
+                if l is not None:
+                    lhs.add(l["id"])
+        for x in walk(fn["body"]):
+            N = _v18_node_of(x)
+            if N is None or x["id"] in lhs or N not in params:
+                continue
+            reads += 1
+            if not _v18_guarded(x, N, par):
+                need.setdefault((name, N), x["l"])
+    rep.floor("reads of a branch of a parameter node (btree.c)", reads, 20)
+    bad = {}
+    changed = True
+    while changed:
+        changed = False
+        for caller, (fn, par, params) in info.items():
+            for c in calls(fn["body"]):
+                callee = c.get("callee")
+                if callee not in info:
+                    continue
+                cparams = info[callee][2]
+                for i, a in enumerate(c["c"][1:]):
+                    if i >= len(cparams) or (callee, cparams[i]) not in need:
+                        continue
+                    N = render(strip(a))
+                    if _v18_guarded(c, N, par):
+                        continue
+                    made = any(y["k"] == "BinaryOperator" and y["op"] == "=" and (strip(y["c"][0]) or {}).get("n") == "isLeaf"
+                               and render(strip(strip(y["c"][0])["c"][0])) == N and const_value(y["c"][1]) == 0 and y["l"] < c["l"]
+                               for y in walk(fn["body"]))
+                    if made:
+                        continue
+                    if N in params:
+                        if (caller, N) not in need:
+                            need[(caller, N)] = c["l"]
+                            changed = True
+                        continue
+                    bad.setdefault((callee, cparams[i]), (caller, c["l"], N))
+    for (fn_, p_), line in sorted(need.items()):
+        key = "branch-read-needs-inner-node:%s:%s" % (fn_, p_)
+        if (fn_, p_) in bad:
+            caller, cl, N = bad[(fn_, p_)]
+            rep.violation("V18", key, "btree.c:%d (%s), called at btree.c:%d (%s)" % (line, fn_, cl, caller),
+                          "%s follows a branch of its node `%s` without testing that it is not a leaf (line %d), and %s passes it "
+                          "`%s`, which is not known to be an inner node there: in a leaf the branch members are uninitialised, "
+                          "so the pointer followed is garbage (deleting a key that is not in the tree: the descent reaches a leaf "
+                          "that does not hold the key and goes on through `part[i].branch`)" % (fn_, p_, line, caller, N))
+        elif not info[fn_][0].get("static", False):
+            rep.violation("V18", key, "btree.c:%d (%s)" % (line, fn_),
+                          "%s is visible to other files and follows a branch of its argument `%s` without testing that it is not a "
+                          "leaf" % (fn_, p_))
+        else:
+            rep.ok("V18", key, sample={"first-unguarded-read": line})
+    rep.floor("node parameters that require an inner node (btree.c)", len(need), 4)
+
+
 def v16(rep, rule="V16"):
     """Making room and using it are two steps in that order: a rotation or an insertion first slides the keys (entries,
     branches) of a node up by one and then writes the new key into the slot that became free.  Written the other way round the
@@ -940,6 +1067,7 @@ def run(tier, only=None):
     v15(rep)
     v16(rep)
     v17(rep)
+    v18(rep)
     try:
         v5(rep)
     except AnalysisBroken as e:
